@@ -26,6 +26,14 @@ type Config struct {
 	Trace      bool
 	Stubs      map[string]string // extra function stubs: full name -> kind ("noop", "poison")
 	ExtraAssume string
+	SampleModels int                  // number of completed-path input models to record
+	Exclude      map[string][]Exclusion // obligation id (or prefix ending in *) -> known input classes
+}
+
+// Exclusion is a known-finding input class, an SMT-LIB predicate over in_<name> variables.
+type Exclusion struct {
+	Name string `json:"name"`
+	Pred string `json:"pred"`
 }
 
 type Candidate struct {
@@ -35,6 +43,7 @@ type Candidate struct {
 	Model  map[string]string `json:"model"`
 	PCSize int               `json:"pc_size"`
 	Msg    string            `json:"msg,omitempty"`
+	Tag    string            `json:"tag,omitempty"` // "known:<name>" when inside a recorded input class
 }
 
 type OblStat struct {
@@ -67,6 +76,7 @@ type Result struct {
 	Aborted      string              `json:"aborted,omitempty"`
 	ApproxPaths  int                 `json:"approx_paths"`
 	Samples      []map[string]interface{} `json:"samples,omitempty"`
+	PathModels   []map[string]string `json:"path_models,omitempty"`
 }
 
 // ---------------------------------------------------------------------------
@@ -383,6 +393,11 @@ func (in *Interp) runSegment(st *State) (alts []alternative) {
 				switch e.why {
 				case "done":
 					in.Res.Paths++
+					if len(in.Res.PathModels) < in.Cfg.SampleModels && in.Cfg.Fixed == nil {
+						if r, m := in.Sol.ModelWith(st.Inputs); r == Sat && m != nil {
+							in.Res.PathModels = append(in.Res.PathModels, m)
+						}
+					}
 					if st.Approx {
 						in.Res.ApproxPaths++
 					}
@@ -511,6 +526,10 @@ func (in *Interp) obligation(st *State, id, kind, site string, cond *Term, msg s
 		s.Trivial++
 		return
 	}
+	if excl := in.exclusionsFor(id); len(excl) > 0 && in.Cfg.Fixed == nil {
+		in.obligationExcl(st, s, id, kind, site, cond, msg, excl)
+		return
+	}
 	in.Res.OblQ++
 	var r SatRes
 	var model map[string]string
@@ -547,6 +566,82 @@ func (in *Interp) obligation(st *State, id, kind, site string, cond *Term, msg s
 		return
 	}
 	if kind == "panic" || r == Sat {
+		in.Res.BranchQ++
+		if in.Sol.CheckWith(cond) == Unsat {
+			if kind == "panic" {
+				panic(pathEnd{"panic"})
+			}
+			panic(pathEnd{"cut"})
+		}
+		in.assume(st, cond)
+	}
+}
+
+func (in *Interp) exclusionsFor(id string) []Exclusion {
+	if in.Cfg.Exclude == nil {
+		return nil
+	}
+	if e, ok := in.Cfg.Exclude[id]; ok {
+		return e
+	}
+	for k, e := range in.Cfg.Exclude {
+		if strings.HasSuffix(k, "*") && strings.HasPrefix(id, k[:len(k)-1]) {
+			return e
+		}
+	}
+	return nil
+}
+
+// obligationExcl decides an obligation for which known-finding input classes are recorded:
+// once with every class excluded (a sat answer there is a NEW violation) and once inside each class.
+func (in *Interp) obligationExcl(st *State, s *OblStat, id, kind, site string, cond *Term, msg string, excl []Exclusion) {
+	neg := Not(cond)
+	outside := []*Term{neg}
+	for _, e := range excl {
+		outside = append(outside, Not(Raw(e.Pred)))
+	}
+	in.Res.OblQ++
+	r, model := in.Sol.ModelWith(st.Inputs, outside...)
+	anySat := false
+	switch r {
+	case Unknown:
+		s.Unknown++
+	case Sat:
+		anySat = true
+		s.Violated++
+		key := id + "@" + site
+		in.candSeen[key]++
+		if in.candSeen[key] <= 3 {
+			in.Res.Candidates = append(in.Res.Candidates, Candidate{ID: id, Kind: kind, Site: site, Model: model, PCSize: len(st.PC), Msg: msg})
+		}
+	}
+	allUnsat := r == Unsat
+	for _, e := range excl {
+		in.Res.OblQ++
+		ri, mi := in.Sol.ModelWith(st.Inputs, neg, Raw(e.Pred))
+		if ri != Unsat {
+			allUnsat = false
+		}
+		if ri == Sat {
+			anySat = true
+			key := id + "@" + site + "#" + e.Name
+			in.candSeen[key]++
+			if in.candSeen[key] <= 2 {
+				in.Res.Candidates = append(in.Res.Candidates, Candidate{ID: id, Kind: kind, Site: site, Model: mi, PCSize: len(st.PC), Msg: msg, Tag: "known:" + e.Name})
+			}
+		}
+	}
+	if allUnsat {
+		s.Proved++
+		return
+	}
+	if b, ok := cond.ConstBool(); ok && !b {
+		if kind == "panic" {
+			panic(pathEnd{"panic"})
+		}
+		return
+	}
+	if kind == "panic" || anySat {
 		in.Res.BranchQ++
 		if in.Sol.CheckWith(cond) == Unsat {
 			if kind == "panic" {
